@@ -38,7 +38,7 @@ def LibcNum.EndInside (L : LibcNum) : Prop := ∀ t, (L.strtod t).consumed ≤ t
 /-- The comparison operators guarding the double → integer casts are consulted by the model
 (`numI64DblHiIncl` …); the rest of the shape the model transcribes is asserted here. -/
 theorem src_shape :
-    numGetIntShape = true ∧ numGetInt64Shape = true ∧ numGetUint64Shape = true ∧
+    numCastGuardsFound = true ∧ numGetIntShape = true ∧ numGetInt64Shape = true ∧ numGetUint64Shape = true ∧
     numIncShape = true ∧ numParseInt64Shape = true ∧ numParseUint64Shape = true := by decide
 
 /-! ## No undefined conversion, no overflow -/
